@@ -121,6 +121,7 @@ func famLegit(r *Rng, o *Out, tier string) {
 			ticket []byte
 			rn     []byte
 			tcavs  []macaroon.Caveat
+			it     addItem // the very caveat value that was passed to Add
 		}
 		var tps []tpUse
 		ancestors := [][]byte{mustEnc(tok)}
@@ -154,7 +155,7 @@ func famLegit(r *Rng, o *Out, tier string) {
 						panic(err)
 					}
 					items = append(items, it)
-					tps = append(tps, tpUse{p, it.tp.ticket, it.tp.rn, tcavs})
+					tps = append(tps, tpUse{p, it.tp.ticket, it.tp.rn, tcavs, it})
 					o.count("add3p")
 				default:
 					items = append(items, addItem{cav: r.plainCav(2)})
@@ -299,6 +300,38 @@ func famLegit(r *Rng, o *Out, tier string) {
 			o.emit("(const match)", "legit-token-not-accepted-as-expected:"+strings.ReplaceAll(obs[:min(len(obs), 60)], " ", "_"))
 		}
 		o.count(fmt.Sprintf("tps.%d", len(tps)))
+		// the SAME third-party caveat value added to a second token (Add copies the caveat "in case the caveat is
+		// added to multiple macaroons"; bundle.Attenuate does exactly that): the second token is as good as the
+		// first - its genuine discharge is accepted, one signed under another key is not
+		if len(tps) > 0 && r.Chance(1, 2) {
+			u := tps[0]
+			key2 := r.Bytes(32)
+			tok2, err := macaroon.New(r.Bytes(6), loc, key2)
+			if err == nil {
+				o.emit(fmt.Sprintf("(tok.new %s %s %s %s)", hx(key2), hx(tok2.Nonce.KID), hs(loc), hx(tok2.Nonce.Rnd)), hx(mustEnc(tok2)))
+				if doAdd(o, tok2, []addItem{u.it}) == nil {
+					final2 := mustEnc(tok2)
+					_, d2, err := macaroon.DischargeTicket(u.p.ka, u.p.loc, u.ticket)
+					if err == nil {
+						good := [][]byte{mustEnc(d2)}
+						o.emit(verifyOp(key2, final2, good, nil), verifyObs(key2, final2, good, nil))
+						for _, badKey := range [][]byte{make([]byte, 32), nil, r.Bytes(32)} {
+							if f, err := macaroon.New(u.ticket, u.p.loc, badKey); err == nil {
+								bad := [][]byte{mustEnc(f)}
+								obs := verifyObs(key2, final2, bad, nil)
+								o.emit(verifyOp(key2, final2, bad, nil), obs)
+								if strings.HasPrefix(obs, "ok") {
+									o.emit("(const match)", "reused-caveat:discharge-under-another-key-accepted")
+								} else {
+									o.emit("(const match)", "match")
+								}
+							}
+						}
+						o.count("caveat.reusedOnSecondToken")
+					}
+				}
+			}
+		}
 		_ = bytes.Equal
 	}
 }
